@@ -38,6 +38,41 @@ CLAIMED = {
    text="Every registered name and alias with every representable single-byte code point (exhaustive), sampled multi-byte ranges, refusal of non-representable text, unhinted UTF-8 with adversarial byte statistics, ECI numbers 0..1023 + samples (thorough: all 0..999999) in every designator length form, decode-side CHARACTER_SET hints, and the registry's value/name/alias/charset consistency.",
    note="Trusted base: x/text codecs define the repertoires; the AIM designator table typed in harness/worker/charset_util.go; qrref.ParseDataCodewords. Don't-cares per DESIGN C15.",
    design="5/C15"),
+ "C02": dict(
+   technique="runtime round-trip monitor with an invariant hook: library writer -> library decoder and an independent ISO 16022 codeword decoder (dmref); a dispatch-step hook in the mode loop decides termination on logical steps; refusal rules from independent capacity bounds",
+   text="Exploration by execution: all strings of length <=3 (thorough <=4) over a 14-symbol class alphabet, Base-256 runs of every length 1..1556, C40/Text/X12/EDIFACT end-of-data families, macro envelopes, digit/letter strings reaching each of the 30 sizes, and seeded run-structured random Latin-1 strings with shape/min/max hints (quick ~50k, thorough ~1.6M texts). Each text: step bound via hook, result xor error, must-fit / must-fail from reference capacities, codewords decoded by dmref and by the library parser, matrix path and sampled image path.",
+   note="Trusted base: dmref (Table 7, independent high-level decoder), the verifhook.DMStep hook (8*len+32 dispatch steps; largest ratio observed is reported), capacity bounds of DESIGN C02. Between the must-fit and must-fail bounds either outcome is accepted.",
+   design="5/C02"),
+ "C05": dict(
+   technique="runtime fault injection: module flips at codeword positions computed by independent placement models (qrref/dmref) on library-written symbols, decoded by the library; identity oracle",
+   text="All 160 QR (version, level) pairs and all 30 Data Matrix sizes: per RS block up to floor(ec/2) codewords replaced (all blocks at capacity, random below, one block, extreme positions incl. long-block byte, inverted codewords); thorough tier: every single codeword position of every block of every size; QR format information: every <=3-bit subset of one copy with an independent random <=3-bit error in the other (exhaustive on every 8th pair in the thorough tier, sampled elsewhere); version information likewise.",
+   note="Trusted base: qrref.CodewordModules/CodewordBlock and dmref equivalents (the same code builds the reference symbols the library reproduces module for module in C07/C08). Replacement values are sampled.",
+   design="5/C05"),
+ "C08": dict(
+   technique="runtime reference-model monitor: library ECC, placement, writer output and decoder compared with an independent ISO 16022 construction (dmref); tables read through tag-guarded exports",
+   text="All 30 ECC 200 sizes x N seeded codeword vectors: ErrorCorrection_EncodeECC200 and DefaultPlacement vs dmref, library decoder on dmref-built symbols (clean and with floor(ec/2) damaged codewords per block) must return the exact data codewords, writer symbols vs dmref.BuildMatrix of the writer's own codewords; 30 encoder entries, 30 decoder entries and 16 generator polynomials compared directly; 253-state pad positions 3..1558 and Base-256 255-state positions observed in EncodeHighLevel output.",
+   note="Trusted base: harness/ref/dmref (+ ref/gf, ref/rs), anchored on the '123456' example and published table values at start-up.",
+   design="5/C08"),
+ "C12": dict(
+   technique="runtime totality monitor: recover() boundary, dispatch-step hook, CPU/heap watchdog per call; size oracle from the same writer's bare symbol",
+   text="All 11 writers x 17 formats x seeded hostile calls (14 content classes incl. empty, invalid UTF-8, 4000-byte strings, mode-loop stressors, limit+-1 lengths; sizes from -2^31 to 20000; hint maps over the ten accepted keys with in- and out-of-range values of the accepted types): no panic, bounded steps/CPU/heap, exactly one of matrix/error, matrix >= bare symbol and (QR/1-D) >= max(requested,1).",
+   note="Hint values are restricted to the documented types. Trusted base: the framework's recover/watchdog, verifhook.DMStep.",
+   design="5/C12"),
+ "C14": dict(
+   technique="runtime reference-model monitor: every pixel of the writer's output compared with the closed form of the statement",
+   text="All 11 writers x 3 seeded symbols: requested sizes exhaustive over 0..2N+3 on both axes (1-D: width x 5 heights) at the default margin, plus margins 0..20 and sizes up to 8N incl. non-square, string-typed margin hints; every pixel compared.",
+   note="The bare module matrix is taken from the library (Encoder_encode for QR, 0x0/margin-0 rendering otherwise); its conformance is C07/C08/C03's business. Default margins: QR 4/side, 1-D 10 shared, UPC/EAN 9 shared.",
+   design="5/C14"),
+ "C17": dict(
+   technique="runtime reference-model monitor: luminance sources and view compositions vs a naive [][]uint8 model after every step; binarisers vs (lum == 0) on bilevel images",
+   text="Every shape 1..200 x 1..200 for 5 source kinds with seeded sequences of <=6 crop/invert/rotate operations (rows, matrix, dimensions, out-of-range rows after every step), exhaustive crop rectangles on small shapes, YUV constructor windows, and bilevel images of every shape 1..100 x 1..100 (11 pattern families, renderings of all writers at scales 1..4) through both binarisers incl. the -1/4/-1 row model.",
+   note="Trusted base: models in harness/worker/c17.go. Don't-cares: colour/alpha to luminance formula, crops leaving the view but inside the underlying image, NotFound from binarisers (floors guard against always-NotFound).",
+   design="5/C17"),
+ "C19": dict(
+   technique="runtime reference-model monitor: PerspectiveTransform vs the projective map solved exactly in math/big.Rat; grid sampling vs pixel under the exactly transformed cell centre; OOB-read hook in BitMatrix.Get",
+   text="Seeded quadrilateral pairs of four families (axis-aligned, rotated, sheared, perspective) through the three exported constructors, corner and interior/exterior point errors < 1e-6 relative; grids of every square size 1..177 and non-square ones on random/all-black/structured images; targeted transforms putting row ends in each of the four one-pixel bands for both passes of checkAndNudgePoints (direct and via SampleGrid); beyond-band NotFound; the OOBRead hook must stay at zero across every SampleGrid call.",
+   note="Trusted base: big.Rat Gaussian elimination in harness/worker/c19.go (self-tested), verifhook.OOBRead. Cells within 1e-6 of a pixel boundary are skipped; coordinates in (-2,-1) are don't-care (DESIGN C19).",
+   design="5/C19"),
 }
 
 PENDING_REASON = "monitor not yet built in this round (designed in DESIGN.md section 5; build order in section 8) - not claimed until its check runs clean"
